@@ -178,6 +178,11 @@ func (w *world) build() {
 		w.known[idB], w.known[idC] = true, true
 		w.outstanding(idA, idA)
 		w.outstanding(idB, idA)
+		// a second hop: E behind B, and a task for E that waits in A's queue wrapped once per
+		// hop (what a check-in of A has to serialise is part of the state)
+		w.link(idB, idE)
+		w.known[idE] = true
+		must(ts.Task(idE, "0000e0e0", agent.COMMAND_SLEEP, map[string]any{"Arguments": "7;1"}) == nil, "task for E")
 	}
 	if w.st == S3 {
 		k := keyIndex(idA)
